@@ -3,7 +3,7 @@ the evidence says about the trusted base."""
 
 COMMON_TB = [
     "Coq 8.16.1 kernel (coqc, full .vo build; no native_compute; vm_compute only on closed terms)",
-    "extraction with ExtrOcamlBasic only (bool/option/unit/list/prod/sumbool/sumor to OCaml types; no Extract Constant of our own), OCaml 4.13.1 compiler, ocaml/driver.ml I/O shell",
+    "extraction with ExtrOcamlBasic only (bool/option/unit/list/prod/sumbool/sumor to OCaml types; no Extract Constant of our own), OCaml 4.13.1 compiler, ocaml/driver.ml I/O shell — cross-checked on every run: a sample of the shorter cases (3 per suite quick, 20 thorough) is evaluated inside Coq with vm_compute from independently translated Gallina terms and must print what the extracted model printed",
     "Rust harness (generators, monitors, MemSys, scheduler shim) and the canonical printers on both sides",
     "the correspondence is sampling: model = code is shown on the cases run, not for all inputs",
 ]
@@ -81,7 +81,7 @@ PROPS = {
     },
     "C07": {
         "level": "proof",
-        "suites": ["hist", "crash", "swap"],
+        "suites": ["hist", "crash", "swap", "crash_coarse"],
         "columns": ["cache"],
         "rule": "histories over the full C01 alphabet (edits, reverts, rule edits incl. invalid rules files, builds, goal builds, cleans, tampered and "
                 "deleted targets, deleted cache entries, deleted ruler directory and parts of it), deterministic and failing commands, serial schedule; "
@@ -200,9 +200,10 @@ PROPS = {
     },
     "C09": {
         "level": "proof",
-        "suites": ["hist"],
+        "suites": ["hist", "real_hist"],
         "columns": ["files"],
-        "rule": "histories over the full C01 alphabet generated while running (edit/revert source, edit rules incl. invalid files, build, goal build, clean, goal clean, tamper, delete target, delete cache entry, delete ruler directory or parts, chmod), 260 quick / 4000 thorough, graphs of 1..6 (9) rules with multi-target rules, transitive edges, commands in a mini-language (constant, copy, concatenation with tags from a small pool so equal contents are common, chmod), a quarter with failing rules and missing leaves; corpus cases first. After every op the implementation's verdict, executed script lines, status lines, workspace, cache listing, decoded history files and file-state table are compared with the model (only the columns this property reads). Distinct by hash of the history; non-trivial = contains a successful build." + " Monitor: every mutating System call ruler makes outside commands is classified by an independent reachability computation (in-scope target or ruler directory), and every out-of-scope file must keep content, mtime and permissions across the invocation; goals: none and random targets.",
+        "rule": "histories over the full C01 alphabet generated while running (edit/revert source, edit rules incl. invalid files, build, goal build, clean, goal clean, tamper, delete target, delete cache entry, delete ruler directory or parts, chmod), 260 quick / 4000 thorough, graphs of 1..6 (9) rules with multi-target rules, transitive edges, commands in a mini-language (constant, copy, concatenation with tags from a small pool so equal contents are common, chmod), a quarter with failing rules and missing leaves; corpus cases first. After every op the implementation's verdict, executed script lines, status lines, workspace, cache listing, decoded history files and file-state table are compared with the model (only the columns this property reads). Distinct by hash of the history; non-trivial = contains a successful build." + " Monitor: every mutating System call ruler makes outside commands is classified by an independent reachability computation (in-scope target or ruler directory), and every out-of-scope file must keep content, mtime and permissions across the invocation; goals: none and random targets."
+                + " Suite real_hist: 12 quick / 150 thorough histories (writes, tampered and deleted targets, chmod, builds and cleans with and without goal, deleted ruler directory / cache directory / table, a failing rule in a third of them) run with the REAL ruler binary (built from /repo without cfg flags: main.rs argument handling, RealSystem, /bin/sh commands, OS threads under the OS scheduler) in a scratch directory on the real file system; after every operation workspace files with permission bits, the cache listing, the number of history files, the status lines (as a multiset) and success/failure are compared with the model; cache names are recomputed from contents.",
         "trusted_base": COMMON_TB + ["directories are not modelled (flat path map)"],
         "assumptions": [
             "commands write only their own rule's targets (node_confined); no clock assumption",
@@ -237,19 +238,21 @@ PROPS = {
     },
     "C20": {
         "level": "proof",
-        "suites": ["hist", "mixed", "sched"],
+        "suites": ["hist", "mixed", "sched", "real_hist"],
         "columns": ["verdict", "cmds", "status"],
         "rule": "histories over the full C01 alphabet generated while running (edit/revert source, edit rules incl. invalid files, build, goal build, clean, goal clean, tamper, delete target, delete cache entry, delete ruler directory or parts, chmod), 260 quick / 4000 thorough, graphs of 1..6 (9) rules with multi-target rules, transitive edges, commands in a mini-language (constant, copy, concatenation with tags from a small pool so equal contents are common, chmod), a quarter with failing rules and missing leaves; corpus cases first. After every op the implementation's verdict, executed script lines, status lines, workspace, cache listing, decoded history files and file-state table are compared with the model (only the columns this property reads). Distinct by hash of the history; non-trivial = contains a successful build." + " Plus every explored schedule of suite sched. Monitor: each banner is checked against the rename / command log of the same build (Built iff the rule's command ran, Recovered iff moved in from the cache, Up-to-date iff untouched), exactly one line per target of finished rules, none for blocked rules."
-                + " Round 2: suite mixed (see C08).",
+                + " Round 2: suite mixed (see C08)."
+                + " Suite real_hist: 12 quick / 150 thorough histories (writes, tampered and deleted targets, chmod, builds and cleans with and without goal, deleted ruler directory / cache directory / table, a failing rule in a third of them) run with the REAL ruler binary (built from /repo without cfg flags: main.rs argument handling, RealSystem, /bin/sh commands, OS threads under the OS scheduler) in a scratch directory on the real file system; after every operation workspace files with permission bits, the cache listing, the number of history files, the status lines (as a multiset) and success/failure are compared with the model; cache names are recomputed from contents.",
         "trusted_base": COMMON_TB + ["the recording Printer of the harness"],
         "assumptions": ["reading 7.5: Built iff the command ran, else Recovered iff moved in, else Up-to-date", "theorems about status_lines / handle_rule / build in coq/Model; tied to build.rs by the status column"],
     },
     "C01": {
         "level": "proof",
-        "suites": ["hist", "crash"],
+        "suites": ["hist", "crash", "real_hist"],
         "columns": ["verdict", "files"],
         "rule": PROPS_HIST_RULE + " Monitor: after every successful build (whole or goal-restricted) every in-scope target is compared with an evaluator written independently of ruler (own dependency order, own interpreter of the command mini-language) that computes the from-scratch contents from the current source files."
-                + " Round 2: the crash suite is part of this check too: from every crash state of a killed build a second continuation re-applies the other version of the edited source and builds, with the C01 monitor on.",
+                + " Round 2: the crash suite is part of this check too: from every crash state of a killed build a second continuation re-applies the other version of the edited source and builds, with the C01 monitor on."
+                + " Suite real_hist: 12 quick / 150 thorough histories (writes, tampered and deleted targets, chmod, builds and cleans with and without goal, deleted ruler directory / cache directory / table, a failing rule in a third of them) run with the REAL ruler binary (built from /repo without cfg flags: main.rs argument handling, RealSystem, /bin/sh commands, OS threads under the OS scheduler) in a scratch directory on the real file system; after every operation workspace files with permission bits, the cache listing, the number of history files, the status lines (as a multiset) and success/failure are compared with the model; cache names are recomputed from contents.",
         "trusted_base": COMMON_TB + ["hash collision freedom idealised (free symbolic hashes; generic theorems take injectivity hypotheses)", "directories not modelled"],
         "assumptions": [
             "commands deterministic in every build of the history (det_history: write only own targets, read only declared sources) — needed for the whole history, shown by a refutation; fine clock starting above 0",
@@ -258,7 +261,7 @@ PROPS = {
     },
     "C11": {
         "level": "proof",
-        "suites": ["crash"],
+        "suites": ["crash", "crash_coarse"],
         "columns": ["verdict", "files", "cache", "hist", "table"],
         "rule": "30 quick / 300 thorough scenarios: generated rule graph and sources, prior state fresh / built / built-edited / built-cleaned / built-tampered / "
                 "built-edited-built-reverted, then a build or clean (goal or all) run with every file-system mutation recorded and writes torn into chunks (1 byte for a "
@@ -275,7 +278,7 @@ PROPS = {
     },
     "C18": {
         "level": "proof",
-        "suites": ["c18_shortcut", "swap"],
+        "suites": ["c18_shortcut", "swap", "crash_coarse"],
         "columns": ["verdict", "files", "cache", "hist", "table"],
         "rule": "220 quick / 3000 thorough generated histories (alphabet of C01, deterministic commands), half under the fine clock and half under the coarse clock (one tick per "
                 "user action or ruler invocation), each run twice — as is, and with the file-state table erased before every build; verdict and workspace after every build "
